@@ -414,3 +414,88 @@ def exclusive_owner(db, body, _depth=0):
         up = exclusive_owner(db, cb, _depth + 1)
         owners.add(up if up is not None else cb['id'])
     return owners.pop() if len(owners) == 1 else None
+
+
+def counted_iterator(I, r, t):
+    """If t is the counter of a counting loop -- initial value 0, + 1 on every back edge, one `Iterator::next` call per
+    iteration on a loop-carried iterator that nothing else touches, back edges only under Some(..), loop exits only under
+    None -- return the iterator value the loop consumes (what `Iterator::count` would be called on); else None."""
+    for (bid, h), rec in r.loops.items():
+        ls = [l for l, s in rec['sym'].items() if s == t]
+        if len(ls) != 1 or rec['init'].get(ls[0]) != C(0) or not rec['step']:
+            continue
+        l = ls[0]
+        body = I.db.bodies.get(bid) if hasattr(I.db, 'bodies') else None
+        if body is None:
+            body = next((b for b in I.db.fn_bodies() if b['id'] == bid), None)
+        if body is None:
+            continue
+        g = I.cfg(body)
+        blocks = g.loops().get(h)
+        if not blocks:
+            continue
+        nxt = [e for e in r.events if e.kind == 'call' and e.fn == bid and e.block in blocks and (e.callee or '').endswith('Iterator>::next')]
+        if len(nxt) != 1:
+            continue
+        nx = nxt[0]
+        a = nx.args[0] if nx.args else None
+        if not (a and a[0] == 'addr' and a[1][0] == 'local' and a[1][2] in rec['sym']):
+            continue
+        j = a[1][2]
+        # nothing but that call advances the iterator: no other call in the loop takes its address, no statement assigns it
+        others = [e for e in r.events if e.kind in ('call', 'usercall') and e.fn == bid and e.block in blocks and e is not nx
+                  and any(isinstance(x, tuple) and x[:1] == ('local',) and x[2] == j for y in (e.args or []) for x in subterms(y))]
+        if others:
+            continue
+        if any(s['env'].get(j) != rec['sym'][j] for s in rec['step']):
+            continue
+        if not all(s['env'].get(l) == app('add', t, C(1)) and ('is', nx.ret, 'Some') in s['facts'] for s in rec['step']):
+            continue
+        okx = True
+        for e in r.events:
+            if e.kind == 'branch' and e.fn == bid and e.block in blocks and e.extra.get('target') not in blocks:
+                tb = body['blocks'][e.extra['target']]['term']['k']
+                if tb == 'unreachable':
+                    continue
+                if ('is', nx.ret, 'None') not in e.extra['added']:
+                    okx = False
+        # every exit of the loop is one of those branch edges (no call/return inside leaves it)
+        for bi in blocks:
+            tk = body['blocks'][bi]['term']['k']
+            if tk == 'return':
+                okx = False
+        if not okx:
+            continue
+        it = rec['init'].get(j)
+        if it is not None and it[0] == 'call' and it[1].endswith('IntoIterator>::into_iter'):
+            it = it[2][0]
+        return it
+    return None
+
+
+def alternatives_deep(I, t, facts, limit=24, depth=0):
+    """like alternatives(), and also splits on phi / ite nodes nested inside the value (a shared tail after a two-way
+    choice of an operand: `let n = if c { a } else { b }; p - n`)"""
+    out = []
+    for x, f in alternatives(I, t, facts):
+        inner = []
+
+        def operands(y):
+            # arithmetic operand positions only: a choice inside an address / load / call argument names a location, not an operand
+            if isinstance(y, tuple) and y and y[0] == 'app':
+                for z in y[2:]:
+                    if isinstance(z, tuple) and z and z[0] in ('phi', 'ite'):
+                        inner.append(z)
+                    else:
+                        operands(z)
+        operands(x)
+        if not inner or depth > 4:
+            out.append((x, f))
+            continue
+        s = inner[0]
+        for v, fv in alternatives(I, s, f):
+            y = subst(x, {s: v})
+            out.extend(alternatives_deep(I, y, fv, limit, depth + 1))
+        if len(out) > limit:
+            return alternatives(I, t, facts)
+    return out
